@@ -7,7 +7,7 @@ mod ledger;
 mod ops;
 
 use circular_buffer::CircularBuffer;
-use elem::{Elem, Tracked, Zst};
+use elem::{Elem, Plain, Tracked, Zst};
 use ledger::*;
 use ops::{check_views, parse_u64, push_window, run_op, Fam, OpRes};
 use std::io::{BufRead, StdinLock, Write};
@@ -44,6 +44,8 @@ fn parse_case(toks: &[&str]) -> Option<Result<(Option<u64>, u8), ()>> {
         "t" => b't',
         "b" => b'b',
         "z" => b'z',
+        "p" => b'p',
+        "u" => b'u',
         _ => return Some(Err(())),
     };
     Some(Ok((parse_u64(n), kind)))
@@ -175,7 +177,7 @@ fn start_case(n: Option<u64>, kind: u8, io: &mut Io, announce: bool) -> Option<N
     let n = n?;
     // a supported capacity?  (checked before anything is printed)
     let supported = match kind {
-        b't' => matches!(n, 0..=8 | 16 | 64),
+        b't' | b'p' => matches!(n, 0..=8 | 16 | 64),
         b'b' => matches!(n, 0..=8 | 16 | 64 | 1000),
         _ => matches!(
             n,
@@ -200,7 +202,13 @@ fn start_case(n: Option<u64>, kind: u8, io: &mut Io, announce: bool) -> Option<N
     let _ = out().flush();
     match kind {
         b't' => dispatch!(n, Tracked, io, [0 1 2 3 4 5 6 7 8 16 64]),
+        b'p' => dispatch!(n, Plain, io, [0 1 2 3 4 5 6 7 8 16 64]),
         b'b' => dispatch!(n, u8, io, [0 1 2 3 4 5 6 7 8 16 64 1000]),
+        b'u' => dispatch!(
+            n, (), io,
+            [0 1 2 3 4294967295 4294967296 4294967297 9223372036854775807 9223372036854775808
+             9223372036854775809 18446744073709551614 18446744073709551615]
+        ),
         _ => dispatch!(
             n, Zst, io,
             [0 1 2 3 4294967295 4294967296 4294967297 9223372036854775807 9223372036854775808
